@@ -16,7 +16,7 @@ func jsonMarshal(v any) ([]byte, error)    { return json.Marshal(v) }
 // See /verif/DESIGN.md section 3.
 var properties = map[string]*Property{
 	"C01": {
-		Rules:      []string{"R-HINT", "R-CTXTYPE", "R-TABLES", "R-CTX-MIRROR"},
+		Rules:      []string{"R-HINT", "R-CTXTYPE", "R-TABLES", "R-CTX-MIRROR", "R-NAMECMP"},
 		Decided:    "the advisory size hint cannot steer which data is encoded (non-interference: hint-derived values reach no branch, loop bound, index or slice bound of the Writer data path); every context key is stored with the type every consumer asserts (no configuration accepted at construction can fail a type assertion at the first block); every codec name accepted at construction has a constructor case in every factory. Encode and decode tasks publish the same context keys (block size for the transform stage, post-transform size for the entropy stage) before creating their codecs.",
 		NotDecided: "byte equality of the round trip, codec correctness, buffer sizing, expansion bounds.",
 	},
@@ -86,7 +86,7 @@ var properties = map[string]*Property{
 		NotDecided: "value/position equality of writer and reader (bit arithmetic).",
 	},
 	"C15": {
-		Rules:      []string{"R-TABLES", "R-NAMECMP", "R-LEVELS", "R-COMPACT"},
+		Rules:      []string{"R-TABLES", "R-NAMECMP", "R-LEVELS", "R-CHAIN-PACK"},
 		Decided:    "name->type->name is the identity on canonical names and upper-cases before lookup; every type maps to a constructor in every factory; no codec variant is selected by a case-sensitive comparison of the user's spelling. In GetType the slot of a token in the packed chain advances only for non-NONE tokens (NONE fillers are removed).",
 		NotDecided: "removal of NONE fillers (loop in GetType); stream byte equality.",
 	},
